@@ -38,3 +38,38 @@ func VerifC19DumpState(c *Client) (running bool, linked bool, setterOpts *DumpOp
 	}
 	return true, dumperOpts != nil && dumperOpts == setterOpts, setterOpts, dumperOpts
 }
+
+// VerifC19H2 is a copy of the http2 settings Transport.Clone carries over field by field.
+type VerifC19H2 struct {
+	Nil                                            bool
+	MaxHeaderListSize, ConnectionFlow              uint32
+	StrictMaxConcurrentStreams                     bool
+	ReadIdleTimeout, PingTimeout, WriteByteTimeout int64
+	HeaderPriorityStreamDep                        uint32
+	Settings                                       [][2]uint32
+	PriorityFrames                                 []uint32
+	SettingsCap, PriorityFramesCap                 int
+}
+
+// VerifC19TransportState reads the unexported value-typed transport/client settings the C19 harness
+// sets through the public setters.
+func VerifC19TransportState(c *Client) (disableAutoDecode bool, autoDecode func(string) bool, forced string, h2 VerifC19H2, outputDirectory, scheme string, trace, disableAutoRead bool) {
+	t := c.Transport
+	disableAutoDecode, autoDecode, forced = t.disableAutoDecode, t.autoDecodeContentType, string(t.forceHttpVersion)
+	if t.t2 == nil {
+		h2.Nil = true
+	} else {
+		h2.MaxHeaderListSize, h2.ConnectionFlow = t.t2.MaxHeaderListSize, t.t2.ConnectionFlow
+		h2.StrictMaxConcurrentStreams = t.t2.StrictMaxConcurrentStreams
+		h2.ReadIdleTimeout, h2.PingTimeout, h2.WriteByteTimeout = int64(t.t2.ReadIdleTimeout), int64(t.t2.PingTimeout), int64(t.t2.WriteByteTimeout)
+		h2.HeaderPriorityStreamDep = t.t2.HeaderPriority.StreamDep
+		for _, s := range t.t2.Settings {
+			h2.Settings = append(h2.Settings, [2]uint32{uint32(s.ID), s.Val})
+		}
+		for _, f := range t.t2.PriorityFrames {
+			h2.PriorityFrames = append(h2.PriorityFrames, f.StreamID)
+		}
+		h2.SettingsCap, h2.PriorityFramesCap = cap(t.t2.Settings), cap(t.t2.PriorityFrames)
+	}
+	return disableAutoDecode, autoDecode, forced, h2, c.outputDirectory, c.scheme, c.trace, c.disableAutoReadResponse
+}
